@@ -60,6 +60,26 @@ pub struct Sc {
     /// hand every reference mesh to the chain through one reused variable
     #[serde(default)]
     pub one_slot: bool,
+    /// When present the subject mesh lives in a vertex buffer of `n_vertices` entries: explicit
+    /// vertex `i` sits at buffer index `ids[i]`, every other slot is an unreferenced vertex.
+    #[serde(default)]
+    pub spread: Option<(Vec<u32>, usize)>,
+}
+
+/// The subject mesh as it is handed to the library.
+fn subject(sc: &Sc) -> M {
+    match &sc.spread {
+        None => sc.mesh.clone(),
+        Some((ids, n)) => {
+            let c = sc.mesh.v[0];
+            let mut v = vec![c; *n];
+            for (i, &id) in ids.iter().enumerate() {
+                v[id as usize] = sc.mesh.v[i];
+            }
+            let f = sc.mesh.f.iter().map(|f| [ids[f[0] as usize], ids[f[1] as usize], ids[f[2] as usize]]).collect();
+            M { v, f }
+        }
+    }
 }
 
 pub struct Obs {
@@ -232,6 +252,34 @@ fn gen_reference(rng: &mut Rng, mesh: &M) -> M {
                 f: vec![[0, 1, 2], [0, 2, 3]],
             }
         }
+    }
+}
+
+/// More than 2^16 faces selected at once: a stepped grid (half of it at z = 0, half lifted), one
+/// reference plane under the low half, a single near-mesh step from the full selection.
+fn gen_large_selection(rng: &mut Rng) -> Sc {
+    let nx = 182 + rng.below(30);
+    let ny = 181 + rng.below(30);
+    let mut mesh = crate::c12::big_mesh(crate::c12::BigKind::Grid, nx, ny);
+    for p in mesh.v.iter_mut() {
+        p[2] = if p[0] > nx as f64 / 2.0 { 10.0 } else { 0.0 };
+    }
+    let e = 5.0;
+    let plane = M {
+        v: vec![[-e, -e, -0.05], [nx as f64 + e, -e, -0.05], [nx as f64 + e, ny as f64 + e, -0.05], [-e, ny as f64 + e, -0.05]],
+        f: vec![[0, 1, 2], [0, 2, 3]],
+    };
+    let mode = *rng.pick(&[Mode::Keep, Mode::Keep, Mode::Remove, Mode::Add]);
+    let start = if mode == Mode::Add { Start::None } else { Start::All };
+    Sc {
+        label: "more-than-65536-faces-selected".into(),
+        mesh,
+        refs: vec![plane],
+        start,
+        ops: vec![Op { crit: Crit::Near { reference: 0, all: rng.chance(0.5), dist: 0.5, planar: None, angle: None }, mode }],
+        probe_faces: vec![],
+        one_slot: false,
+        spread: None,
     }
 }
 
@@ -468,6 +516,9 @@ impl Property for C14 {
     }
 
     fn generate(&self, rng: &mut Rng, tier: Tier) -> Sc {
+        if rng.chance(if tier == Tier::Quick { 0.00008 } else { 0.00003 }) {
+            return gen_large_selection(rng);
+        }
         let (label, mut mesh) = loop {
             let (l, m) = gen_mesh(rng, tier);
             if nondegenerate(&m) && m.has_distinct_positions() {
@@ -622,7 +673,31 @@ impl Property for C14 {
         let mut probe_faces: Vec<usize> = (0..nprobe).map(|_| rng.below(nf)).collect();
         probe_faces.sort();
         probe_faces.dedup();
-        Sc { label, mesh, refs, start, ops, probe_faces, one_slot }
+        // now and then the mesh sits in a vertex buffer of more than 2^20 entries, some of its
+        // vertices in the lowest and some in the highest slots
+        let spread = if rng.chance(if tier == Tier::Quick { 0.0003 } else { 0.0001 }) && mesh.v.len() <= 200 {
+            let n = (1usize << 20) + 1 + rng.below(64);
+            let mut set = std::collections::BTreeSet::new();
+            while set.len() < mesh.v.len() {
+                let id = match rng.below(3) {
+                    0 => rng.below(64),
+                    1 => n - 1 - rng.below(64),
+                    _ => {
+                        // congruent to a low slot modulo 2^20, 2^16 ...
+                        let base = rng.below(64);
+                        (base + (1usize << *rng.pick(&[16u32, 20]))).min(n - 1)
+                    }
+                };
+                set.insert(id as u32);
+            }
+            let mut ids: Vec<u32> = set.into_iter().collect();
+            rng.shuffle(&mut ids);
+            label.push_str("+huge-vertex-buffer");
+            Some((ids, n))
+        } else {
+            None
+        };
+        Sc { label, mesh, refs, start, ops, probe_faces, one_slot, spread }
     }
 
     fn swarm(&self, rng: &mut Rng, sc: &Sc) -> Swarm {
@@ -633,7 +708,10 @@ impl Property for C14 {
         Swarm { order_weights: w, fault_rate: 0.0, boundary_bits: Vec::new() }
     }
 
-    fn vectors(&self, rng: &mut Rng, tier: Tier, _sc: &Sc) -> usize {
+    fn vectors(&self, rng: &mut Rng, tier: Tier, sc: &Sc) -> usize {
+        if sc.mesh.f.len() > 20_000 {
+            return 1;
+        }
         match tier {
             Tier::Quick => 3 + rng.below(3),
             Tier::Thorough => 4 + rng.below(13),
@@ -641,8 +719,9 @@ impl Property for C14 {
     }
 
     fn execute(&self, sc: &Sc, sim: &Sim) -> Obs {
+        let subj = subject(sc);
         let built = sim.op("Mesh::new", 10_000_000, || {
-            (to_mesh(&sc.mesh), sc.refs.iter().map(to_mesh).collect::<Vec<Mesh>>())
+            (to_mesh(&subj), sc.refs.iter().map(to_mesh).collect::<Vec<Mesh>>())
         });
         let (mesh, refs) = match built {
             OpResult::Done(x) => x,
@@ -729,6 +808,12 @@ impl Property for C14 {
             preds.push(cache.into_inner());
         }
         // probes
+        if sc.spread.is_some() {
+            stats.bump("probe:vertex-buffer-beyond-2^20");
+        }
+        if sc.mesh.f.len() > 65_536 {
+            stats.bump("probe:more-than-65536-faces-in-one-step");
+        }
         if sc.ops.iter().any(|o| matches!(o.crit, Crit::Near { angle: Some(_), .. })) {
             stats.bump("probe:near-with-angle-tol");
         }
@@ -975,6 +1060,7 @@ impl Property for C14 {
         let nf = sc.mesh.f.len();
         let idx_ok = |m: &M| m.f.iter().all(|f| f.iter().all(|&v| (v as usize) < m.v.len()) && f[0] != f[1] && f[1] != f[2] && f[0] != f[2]);
         nf >= 1
+            && sc.spread.as_ref().is_none_or(|(ids, n)| ids.len() == sc.mesh.v.len() && ids.iter().all(|&i| (i as usize) < *n))
             && idx_ok(&sc.mesh)
             && !sc.refs.is_empty()
             && sc.refs.iter().all(|r| !r.f.is_empty() && idx_ok(r))
